@@ -78,6 +78,7 @@ struct Ctx {
     statuses: Vec<String>,
     vols: Vec<u32>,
     prev_orders: Vec<Value>,
+    prev_keys: Vec<Value>,
     n_trades: usize,
 }
 
@@ -151,11 +152,11 @@ fn main() {
         let t0 = rng.gen_range(0..1000u64);
         let n_ops = rng.gen_range(ops / 2..=ops);
         let mut book: Box<dyn BookDyn> = new_book(levels, t0, tick, trading);
-        let mut c = Ctx { tick, base: rng.gen_range(1..200), statuses: vec![], vols: vec![], prev_orders: vec![], n_trades: 0 };
+        let mut c = Ctx { tick, base: rng.gen_range(1..200), statuses: vec![], vols: vec![], prev_orders: vec![], prev_keys: vec![], n_trades: 0 };
         let mut history: Vec<Value> = Vec::new();
         let pr = book.proj();
         let ev = json!({"op": "reset", "run": run, "t0": t0, "tick": tick, "trading": trading, "levels": levels,
-            "now": pr["now"], "tvol": pr["tvol"], "views": pr["views"], "no": 0, "nt": 0, "do": [], "newtr": [], "dt": 0, "audit": false});
+            "now": pr["now"], "tvol": pr["tvol"], "views": pr["views"], "no": 0, "nt": 0, "do": [], "dk": [], "newtr": [], "dt": 0, "audit": false});
         writeln!(f, "{}", ev).unwrap();
         n_events += 1;
         history.push(json!({"op": "reset", "t0": t0, "tick": tick, "trading": trading, "levels": levels}));
@@ -265,6 +266,10 @@ fn main() {
                 }
             }
             let d_t: Vec<Value> = trades[c.n_trades.min(trades.len())..].to_vec();
+            // the keys under which the order entries sit in their sides (from the JSON snapshot)
+            let keys = book.keys();
+            let d_k: Vec<Value> = keys.iter().enumerate().filter(|(id, k)| *id >= c.prev_keys.len() || c.prev_keys[*id] != **k)
+                .map(|(id, k)| json!([id, k])).collect();
             // features (for the evidence)
             if !d_t.is_empty() { *feats.entry("events_with_trades".into()).or_insert(0) += 1; }
             if d_t.len() > 1 { *feats.entry("events_with_multi_trades".into()).or_insert(0) += 1; }
@@ -288,6 +293,7 @@ fn main() {
             ev["no"] = json!(orders.len());
             ev["nt"] = json!(trades.len());
             ev["do"] = json!(d_o);
+            ev["dk"] = json!(d_k);
             ev["newtr"] = json!(d_t);
             ev["audit"] = json!(audit);
             if !ev.as_object().unwrap().contains_key("dt") { ev["dt"] = json!(0); }
@@ -298,6 +304,7 @@ fn main() {
             c.statuses = orders.iter().map(|o| o[1].as_str().unwrap().to_string()).collect();
             c.vols = orders.iter().map(|o| o[4].as_u64().unwrap() as u32).collect();
             c.prev_orders = orders.clone();
+            c.prev_keys = keys;
             c.n_trades = trades.len();
         }
     }
